@@ -132,10 +132,11 @@ Section DictDeser.
       else Ret tt in
     if attr then
       (* from_unicode(XmlAttribute, inst) -> xmlattribute_from_bytes -> from_bytes(Integer, inst) *)
+      let msl := match k with LInt m => m | _ => PosInf end in
       match inst with
       | JNull => if soft && negb nillable then raise_nth 3 hier_from_dict_value_raises else Ret tt
-      | JStr s => let! _ := read_int s in Ret tt
-      | JBytes b _ => let! _ := read_int b in Ret tt
+      | JStr s => let! _ := read_int msl s in Ret tt
+      | JBytes b _ => let! _ := read_int msl b in Ret tt
       | _ =>
           match P with
           | PMsgpack => let! _ := ret_number P inst in Ret tt
@@ -178,10 +179,10 @@ Section DictDeser.
                  | JBytes b _ => let! _ := of_out (a2b_go false 0 0 0 [] b) in Ret true
                  | _ => Raise EAttributeError []            (* type(value)().join *)
                  end
-             | LInt =>
+             | LInt msl =>
                  match P, inst with
-                 | PMsgpack, JStr s => let! _ := read_int s in Ret true
-                 | PMsgpack, JBytes b _ => let! _ := read_int b in Ret true
+                 | PMsgpack, JStr s => let! _ := read_int msl s in Ret true
+                 | PMsgpack, JBytes b _ => let! _ := read_int msl b in Ret true
                  | _, _ => let! _ := ret_number P inst in Ret (vnative_number nillable inst)
                  end
              | LBool => let! _ := ret_bool P inst in Ret true
@@ -210,7 +211,7 @@ Section DictDeser.
         (* an Array member with max_occurs == 1 is judged by the attributes of its element type:
            min_occurs 0, unbounded *)
         let '(mn, mx) := match f_ty f with
-                         | TArr _ => if ext_eqb (f_max f) (Fin 1) then (0, PosInf) else (f_min f, f_max f)
+                         | TArr _ _ => if ext_eqb (f_max f) (Fin 1) then (0, PosInf) else (f_min f, f_max f)
                          | _ => (f_min f, f_max f) end in
         if n <? mn then raise_nth 0 dict_check_freq_raises
         else if negb (ext_leb (Fin n) mx) then raise_nth 1 dict_check_freq_raises
@@ -247,8 +248,8 @@ Section DictDeser.
       | JNull => Ret tt
       | _ =>
         match t with
-        | TLeaf _ => Raise ETypeError []         (* _doc_to_object is only entered with complex classes *)
-        | TArr elt =>
+        | TLeaf _ | TAttr _ => Raise ETypeError []   (* _doc_to_object is only entered with complex classes *)
+        | TArr _ elt =>
             match iterate doc with
             | None => guard_raise g_hier_array_iterable true (Raise ETypeError []) (Ret tt)
             | Some items =>
